@@ -34,6 +34,7 @@ LEVEL_TEXT = ("Theorems (Lean 4) about the statement-by-statement model of the e
 LEVEL_NOTE = ("proved: bookkeeping factors through the abstraction; solver and solve() table are invariant under node renumbering, sibling "
               "order and topological order. Which law exception escapes when two components fail in the same sweep does depend on the "
               "processing order (the exception class does not). The composition of the two halves and the other reports are tested, not proved.")
+LEVEL_NOTE = LEVEL_NOTE + (' The saved document is also judged by what it is for: from_file(save(S)) must succeed (or fail alike) and solve alike for the edited system, the fresh build and the shuffled builds (`reload`).')
 MODULE = "SysLoss.Props.C16"
 MODULES = ["SysLoss.Props.C16", "SysLoss.Props.C16Renumber", "SysLoss.Props.C16Final", "SysLoss.Props.C16Reports", "SysLoss.Props.C16Rail"]
 THEOREMS = [
@@ -131,6 +132,15 @@ def reports(sys_, diag=False):
         rep["save"] = ("exc", H.exc_name(e))
     else:
         rep["save"] = ("ok", canon_doc(json.load(open(path))))
+        # what the saved file is good for: two systems of the same final structure must both reload (or both fail alike) and the
+        # reloaded systems must solve alike - whatever order the document lists its sections in
+        from sysloss.system import System
+        s2, e2, _ = H.quiet(System.from_file, path)
+        if e2 is not None:
+            rep["reload"] = ("exc", H.exc_name(e2))
+        else:
+            df2, e3, _ = H.quiet(s2.solve)
+            rep["reload"] = ("exc", "solve:" + H.exc_name(e3)) if e3 is not None else ("ok", df_rows(df2, ["Component", "Phase"]))
     get("solve", sys_.solve, ["Component", "Phase"])
     get("rail_rep", sys_.rail_rep, ["Rail", "Component", "Phase"])
     if diag:
@@ -200,7 +210,7 @@ def diff_report(name, a, b):
     if a[0] == "exc":
         return None if a[1] == b[1] else {"report": name, "a": a, "b": b}
     x, y = a[1], b[1]
-    if name in ("solve", "rail_rep", "params", "limits", "phases"):
+    if name in ("solve", "rail_rep", "params", "limits", "phases", "reload"):
         if x is None or y is None:
             return None if x is None and y is None else {"report": name, "a_is_none": x is None, "b_is_none": y is None}
         if set(x) != set(y):
@@ -448,6 +458,8 @@ def check_point(ctx, run, stream, diag=False):
         ctx.stats["%s:reports_vs_model:skipped:%s" % (stream, type(e).__name__)] += 1
     frep = reports(fresh, diag=diag)
     for name in rep:
+        if name not in frep:
+            continue          # "reload" exists only when save() succeeded; a save() difference is reported under "save"
         d = diff_report(name, rep[name], frep[name])
         if d is not None:
             out.append(("same_as_fresh:" + name, dict(d, a_is="edited system", b_is="built from scratch (canonical order)")))
@@ -459,6 +471,8 @@ def check_point(ctx, run, stream, diag=False):
             continue
         r2 = reports(f2, diag=False)
         for name in r2:
+            if name not in frep:
+                continue
             d = diff_report(name, frep[name], r2[name])
             if d is not None:
                 out.append(("order_independent:" + name, dict(d, a_is="canonical order %s" % order, b_is="order %s" % o2)))
@@ -618,7 +632,7 @@ def check_history(ctx, run, stream, diag=False):
         # an accepted call broke the structure (C14 reports that); C16's own clause "every report succeeds" still applies
         rep = reports(run.sys)
         fails = [("report_raises", {"report": name, "exception": r[1]}) for name, r in rep.items()
-                 if r[0] == "exc" and not (name in ("solve", "rail_rep") and r[1] in ("ValueError", "RuntimeError"))]
+                 if r[0] == "exc" and name != "reload" and not (name in ("solve", "rail_rep") and r[1] in ("ValueError", "RuntimeError"))]
         if fails:
             ctx.stats["%s:report_raises_on_broken_structure" % stream] += 1
             ctx.oracle({"history": hist, "calls": H.short(hist)}, "report_raises", run.steps[-1]["op"]["op"], {},
@@ -683,6 +697,8 @@ def blind_move(ctx, run, stream, tail=None):
     frep = reports(fresh)
     hist = run.history()
     for name in rep:
+        if name not in frep:
+            continue
         d = diff_report(name, rep[name], frep[name])
         if d is not None:
             ctx.oracle({"history": hist, "calls": H.short(hist), "blind_tail": [x, p2]}, "same_as_fresh:" + name, "del_comp+add_comp", {},
